@@ -11,7 +11,7 @@
    whose ranges every check run records from the implementation. *)
 From Coq Require Import ZArith List Bool Lia.
 From AV Require Import Lib.Bytes Model.RateCounter Model.Aimd Model.Rbe
-  Proof.RateCounterP Proof.AimdP Proof.RbeP Proof.RbeRembP.
+  Proof.RateCounterP Proof.AimdP Proof.RbeP Proof.RbeRembP Proof.RbeEncP.
 Import ListNotations.
 Local Open Scope Z_scope.
 
@@ -72,6 +72,17 @@ Theorem C15_remb_encodable : forall e ss,
     0 <= m < 2 ^ 18 /\ 0 <= k <= 63 /\ m * 2 ^ k <= e < (m + 1) * 2 ^ k /\ (e < 2 ^ 18 -> m = e /\ k = 0).
 Proof. exact remb_roundtrip. Qed.
 Print Assumptions C15_remb_encodable.
+
+(* ... and along ANY run (as in C15_bounds, SSRCs 32 bit, less than 2^60 payload
+   bytes in total) every returned (estimate, SSRC list) satisfies these
+   premises: 0 <= e < 2^81, at most 255 SSRCs, so the receiver's
+   pack_remb_fci call never raises and the REMB decodes to a value <= e. *)
+Theorem C15_estimates_encodable : forall l,
+  nondecreasing (map a_time l) -> Forall (fun a => 0 <= a_size a) l -> fl_admissible rbe_init l ->
+  Forall (fun a => 0 <= a_ssrc a < 4294967296) l -> sum_sizes l <= 2 ^ 60 ->
+  exists s outs, Rbe.run rbe_init l = (s, outs, 0) /\ Forall encodable_out outs.
+Proof. exact rbe_estimates_encodable. Qed.
+Print Assumptions C15_estimates_encodable.
 
 (* ---- non-vacuity ------------------------------------------------------------- *)
 (* A concrete history satisfying the hypotheses of C15_bounds in which estimates
